@@ -417,7 +417,7 @@ impl PersistenceManager {
         r is Err ==> final(self).same_state(old(self)),                                              //#refused_leaves_nothing
         final(self).inv(),                                                                           //#usage_equals_stored
         final(self).tenants.tenants@ == old(self).tenants.tenants@,                                  //#tenants_frame
-//@before "Ok(())"
+//@atend
         proof {
             axiom_string_keys();
             let (n0, e0, u0) = (old(self).storage.nodes@, old(self).storage.edges@, old(self).tenants.usage@);
@@ -443,7 +443,7 @@ impl PersistenceManager {
         final(self).tenants.tenants@ == old(self).tenants.tenants@,                                  //#tenants_frame
 //@atstart
         proof { lemma_resource_names(); }
-//@before "Ok(())"
+//@atend
         proof {
             axiom_string_keys();
             let (n0, e0, u0) = (old(self).storage.nodes@, old(self).storage.edges@, old(self).tenants.usage@);
@@ -465,7 +465,7 @@ impl PersistenceManager {
         r is Err ==> final(self).same_state(old(self)),                                              //#refused_leaves_nothing
         final(self).inv(),                                                                           //#usage_equals_stored
         final(self).tenants.tenants@ == old(self).tenants.tenants@,                                  //#tenants_frame
-//@before "Ok(())"
+//@atend
         proof {
             axiom_string_keys();
             let (n0, e0, u0) = (old(self).storage.nodes@, old(self).storage.edges@, old(self).tenants.usage@);
@@ -488,7 +488,7 @@ impl PersistenceManager {
         r is Err ==> final(self).same_state(old(self)),                                              //#refused_leaves_nothing
         final(self).inv(),                                                                           //#usage_equals_stored
         final(self).tenants.tenants@ == old(self).tenants.tenants@,                                  //#tenants_frame
-//@before "Ok(())"
+//@atend
         proof {
             axiom_string_keys();
             let (n0, e0, u0) = (old(self).storage.nodes@, old(self).storage.edges@, old(self).tenants.usage@);
@@ -512,7 +512,7 @@ impl PersistenceManager {
         r is Err ==> final(self).same_state(old(self)),                                              //#refused_leaves_nothing
         final(self).inv(),                                                                           //#usage_equals_stored
         final(self).tenants.tenants@ == old(self).tenants.tenants@ && final(self).tenants.usage@ == old(self).tenants.usage@,   //#tenants_frame
-//@before "Ok(())"
+//@atend
         proof {
             Self::lemma_inv_same_keys(old(self).storage.nodes@, old(self).storage.edges@, self.storage.nodes@, self.storage.edges@, self.tenants.usage@);
         }
@@ -542,7 +542,7 @@ impl PersistenceManager {
         r is Err ==> final(self).same_state(old(self)),                                              //#refused_leaves_nothing
         final(self).inv(),                                                                           //#usage_equals_stored
         final(self).tenants.tenants@ == old(self).tenants.tenants@ && final(self).tenants.usage@ == old(self).tenants.usage@,   //#tenants_frame
-//@before "Ok(())"
+//@atend
         proof {
             Self::lemma_inv_same_keys(old(self).storage.nodes@, old(self).storage.edges@, self.storage.nodes@, self.storage.edges@, self.tenants.usage@);
         }
@@ -558,7 +558,7 @@ impl PersistenceManager {
         old(self).inv() ==> final(self).inv(),                                                       //#usage_equals_stored
         r is Err ==> final(self).same_state(old(self)),                                              //#refused_leaves_nothing
         final(self).tenants.tenants@ == old(self).tenants.tenants@,                                  //#tenants_frame
-//@before "Ok((nodes, edges))"
+//@atend
         proof {
             axiom_string_keys();
             let (n0, e0, u0) = (old(self).storage.nodes@, old(self).storage.edges@, old(self).tenants.usage@);
